@@ -31,6 +31,8 @@ func checkC04(p *Prog, r *Report) {
 	inputHelpers(p, r, "C04.R12")
 	yearExtensionRule(p, r, "C04.R13")
 	sessionOpenRule(p, r, "C04.R14")
+	// a reader helper declared on the record VALUE fills a copy (shared with C13.lost-writes)
+	lostWrites(p, r, "C04.R15")
 }
 
 // ---------------------------------------------------------------- R1 weather errors propagate
